@@ -68,9 +68,11 @@ def replay_concrete(spec_path):
     return json.loads(p.stdout[i + len("@@REPLAY@@"):].splitlines()[0])
 
 
-def write_replay(pid, module, fn, case, args, tag):
+def write_replay(pid, module, fn, case, args, tag, ignore_known=False):
     os.makedirs(REPLAYS, exist_ok=True)
     spec = {"property": pid, "module": module, "fn": fn, "case": case, "args": args}
+    if ignore_known:
+        spec["ignore_known"] = True
     h = hashlib.sha256(json.dumps(spec, sort_keys=True).encode()).hexdigest()[:12]
     path = os.path.join(REPLAYS, "%s-%s-%s.json" % (pid, tag, h))
     with open(path, "w") as f:
@@ -165,7 +167,7 @@ def main():
         if f.get("property") != pid:
             continue
         w = f["witness"]
-        path = write_replay(pid, w["module"], w["fn"], w.get("case") or {}, w["args"], "known")
+        path = write_replay(pid, w["module"], w["fn"], w.get("case") or {}, w["args"], "known", ignore_known=True)
         r = replay_concrete(path)
         if r.get("pre") and r.get("result") in (False, "exception"):
             known_lines.append("KNOWN-FINDING: property=%s %s" % (pid, f["what"]))
